@@ -18,6 +18,8 @@ type Spec struct {
 	// scheduler. Several tasks = token scheduler with the Preempt plan.
 	Tasks   [][]Op          `json:"tasks"`
 	Preempt []simrt.Preempt `json:"preempt,omitempty"`
+	// PreemptW: switch right after the K-th package-level write of a task.
+	PreemptW []simrt.PreemptW `json:"preempt_w,omitempty"`
 	// Free: run the tasks as free-running goroutines on the real Go scheduler
 	// (race probe; only meaningful in the un-rewritten -race build).
 	Free bool `json:"free,omitempty"`
@@ -120,6 +122,8 @@ type Result struct {
 	Unregistered uint64                   `json:"unregistered,omitempty"`
 	Switches     [][3]uint64              `json:"switches,omitempty"`
 	LockOps      uint64                   `json:"lock_ops,omitempty"`
+	GWrites      map[int]int              `json:"gwrites,omitempty"`  // package-level write sites hit -> count
+	GWTotal      int                      `json:"gw_total,omitempty"`
 	FuncsHit     int                      `json:"funcs_hit,omitempty"`
 	Warnings     int                      `json:"warnings"`
 	Probes       map[string]int           `json:"probes,omitempty"`
